@@ -97,8 +97,16 @@ class BcryptSHA256Hasher(PasswordHasher):
             salt=info.salt,
         ).as_str()
 
-    def verify(self, hash: StrOrBytes, secret: StrOrBytes) -> bool:
+    @classmethod
+    def _inspect(cls, hash: StrOrBytes) -> BcryptSHA256PHCV2 | None:
         info = inspect_phc(as_str(hash), BcryptSHA256PHCV2)
+        if info is None or info.version_ != 2:
+            # only version 2 (hmac-sha256 pre-hash) of the format is implemented here
+            return None
+        return info
+
+    def verify(self, hash: StrOrBytes, secret: StrOrBytes) -> bool:
+        info = self._inspect(hash)
         if not info:
             return False
 
@@ -118,10 +126,10 @@ class BcryptSHA256Hasher(PasswordHasher):
         )
 
     def identify(self, hash: StrOrBytes) -> bool:
-        return inspect_phc(as_str(hash), BcryptSHA256PHCV2) is not None
+        return self._inspect(hash) is not None
 
     def needs_update(self, hash: StrOrBytes) -> bool:
-        info = inspect_phc(as_str(hash), BcryptSHA256PHCV2)
+        info = self._inspect(hash)
         if not info:
             return True
         return info.rounds != self._rounds
